@@ -304,13 +304,18 @@ class _RecDict(dict):
         super().__init__()
         self.writes = {}
         self.seq = 0
-        self.inherited_writers = set()  # ids of the wrappers of inherited members that registered themselves here
+
+    # one clock for all registries of a run, and the moment every writer was first seen (the writers are kept alive so
+    # that their ids are not reused)
+    gseq = 0
+    first_seen: dict = {}
 
     def __setitem__(self, key, value):
         self.seq += 1
+        _RecDict.gseq += 1
+        if id(value) not in _RecDict.first_seen:
+            _RecDict.first_seen[id(value)] = (_RecDict.gseq, value)
         self.writes.setdefault(key, []).append((self.seq, id(value)))
-        if getattr(value, "inherited", False):
-            self.inherited_writers.add(id(value))
         super().__setitem__(key, value)
 
 
@@ -324,6 +329,9 @@ class Executor:
         self.uids: dict[int, int] = {}  # id(real) -> uid
         self.moved_inside: set[int] = set()  # aliases that travelled inside a re-inserted subtree
         self.used_second_collection = False
+        self.attach_gseq: dict = {}  # id(alias) -> run-wide registry clock at its last insertion
+        _RecDict.gseq = 0
+        _RecDict.first_seen = {}
         self.reg_seen_ok: set = set()
         self.attach_mark: dict = {}  # id(alias) -> (id(target), length of the target's registry log before its last insertion)  # (alias uid, id(target), path) whose registration was seen correct
         if not model_only:
@@ -568,6 +576,8 @@ class Executor:
         if node.kind == "alias" and real._target is not None and not real._target.is_alias and isinstance(real._target.aliases, _RecDict):
             # an insertion (re-)registers the alias with its target: remember how far that registry had got before
             self.attach_mark[id(real)] = (id(real._target), real._target.aliases.seq)
+        if node.kind == "alias" and real is not None:
+            self.attach_gseq[id(real)] = _RecDict.gseq
         exc = None
         if base is None:
             # chained spelling and the intermediate is missing: caller gets KeyError from the lookup
@@ -1074,7 +1084,10 @@ class Executor:
                             # *declared* alias of this history displaced by an inherited-member wrapper is something new)
                             # (with a second collection in play the same dotted path can name objects of both collections, and
                             # a wrapper of one takes the registry slot of a declared alias of the other: old attribution)
-                            if reg is not None and mine and writes[-1][1] != id(co) and not (getattr(reg, "inherited", False) and id(co) in self.uids and not self.used_second_collection):
+                            # (... and only when that wrapper was *made* after the declared alias had been inserted: a wrapper
+                            # made before, when the name was still inherited, is a stale alias like any other)
+                            born_after = _RecDict.first_seen.get(id(reg), (0, None))[0] > self.attach_gseq.get(id(co), 1 << 60)
+                            if reg is not None and mine and writes[-1][1] != id(co) and not (getattr(reg, "inherited", False) and born_after and id(co) in self.uids and not self.used_second_collection):
                                 # this alias did register itself here; later another alias object that lived at this
                                 # path earlier (deleted, replaced or moved away since; entries are never purged)
                                 # re-registered itself and displaced it
